@@ -620,27 +620,180 @@ func selfStore(e an.Event) bool {
 	return v.Op == "load" && len(v.Args) == 1 && v.Args[0] != nil && v.Args[0].K == e.Args[0].K
 }
 
-// stripClone sees through the idioms that make a private copy of a byte slice with the same content:
-// append([]byte(nil), x...), append([]byte{}, x...), bytes.Clone(x), slices.Clone(x).
+// cloneSrc: t is a private copy of x made by one expression with the same content — append([]byte(nil), x...),
+// append([]byte{}, x...), bytes.Clone(x), slices.Clone(x) — returns x (nil otherwise).
+func cloneSrc(t *an.Term) *an.Term {
+	cc, i := t.CallOf()
+	if cc == nil || i != -1 {
+		return nil
+	}
+	switch cc.Aux {
+	case "builtin append":
+		if len(cc.Args) == 2 && (cc.Args[0].IsConst("nil") || cc.Args[0].Op == "make" && len(cc.Args[0].Args) > 0 && cc.Args[0].Args[0].IsConst("0")) {
+			return cc.Args[1]
+		}
+	case "bytes.Clone", "slices.Clone":
+		if len(cc.Args) == 1 {
+			return cc.Args[0]
+		}
+	}
+	return nil
+}
+
+// stripClone sees through the idioms that make a private copy of a byte slice with the same content in one
+// expression (cloneSrc). The two-statement idiom make+copy needs the path: copyOrigin.
 func stripClone(t *an.Term) *an.Term {
 	for t != nil {
-		cc, i := t.CallOf()
-		if cc == nil || i != -1 {
+		x := cloneSrc(t)
+		if x == nil {
 			return t
 		}
-		switch cc.Aux {
-		case "builtin append":
-			if len(cc.Args) == 2 && (cc.Args[0].IsConst("nil") || cc.Args[0].Op == "make" && len(cc.Args[0].Args) > 0 && cc.Args[0].Args[0].IsConst("0")) {
-				t = cc.Args[1]
-				continue
-			}
-		case "bytes.Clone", "slices.Clone":
-			if len(cc.Args) == 1 {
-				t = cc.Args[0]
-				continue
-			}
-		}
-		return t
+		t = x
 	}
 	return t
+}
+
+// sameBuf: two terms denote the same piece of memory. Terms are values; for most buffer-producing terms (make,
+// alloc, call results) the key identifies the instruction and with it the buffer. A string→[]byte conversion
+// is keyed by its operand, but every conversion instruction allocates a buffer of its own.
+func sameBuf(a, b *an.Term) bool {
+	if a == nil || b == nil || a.K != b.K {
+		return false
+	}
+	if a.Op == "conv" && a.V != nil && b.V != nil && a.V != b.V {
+		return false
+	}
+	return true
+}
+
+// rootedIn: t is buf or an element address / sub-slice of it (shares its memory).
+func rootedIn(t, buf *an.Term) bool {
+	for t != nil {
+		if sameBuf(t, buf) {
+			return true
+		}
+		if (t.Op == "slice" || t.Op == "indexaddr") && len(t.Args) > 0 {
+			t = t.Args[0]
+			continue
+		}
+		break
+	}
+	return false
+}
+
+// bufWrite describes how event e writes the memory of buf ("" if it does not): an element store, or a call whose
+// callee writes the operand (writesArg: copy destination, clear, readers filling it, module functions inspected).
+// A deferred call appears as a call event where it runs, its registration (kind "defer") writes nothing.
+func bufWrite(p *an.Prog, e an.Event, buf *an.Term) string {
+	switch e.Kind {
+	case "store":
+		if len(e.Args) == 2 && e.Args[0] != nil && e.Args[0].Op == "indexaddr" && rootedIn(e.Args[0], buf) {
+			return "element store"
+		}
+	case "call":
+		for i, a := range e.Args {
+			if !rootedIn(a, buf) {
+				continue
+			}
+			if w := writesArg(p, e, i); w != "" {
+				return shortName(e.Callee) + " (" + w + ")"
+			}
+		}
+	}
+	return ""
+}
+
+// copyOrigin: buf is a private copy of another slice x holding the same bytes when event `before` runs. Either one
+// expression (cloneSrc; the copy is taken where that call runs) or the two-statement idiom: buf = make([]byte, n)
+// of this path, written exactly once before `before`, by copy(buf, x) with len(x) == n known (so the copy is
+// neither short nor partial). Returns x and the index of the event that took the copy.
+func copyOrigin(p *an.Prog, s *an.PathState, buf *an.Term, before int) (src *an.Term, at int, ok bool) {
+	if buf == nil {
+		return nil, -1, false
+	}
+	if x := cloneSrc(buf); x != nil {
+		cc, _ := buf.CallOf()
+		for i, e := range s.Events {
+			if i < before && e.Kind == "call" && e.Res != nil && e.Res.K == cc.K {
+				return x, i, true
+			}
+		}
+		return x, before, true
+	}
+	if buf.Op != "make" || buf.Aux != "slice" || len(buf.Args) == 0 {
+		return nil, -1, false
+	}
+	at = -1
+	for i, e := range s.Events {
+		if i >= before {
+			break
+		}
+		if bufWrite(p, e, buf) == "" {
+			continue
+		}
+		if at >= 0 || e.Kind != "call" || e.Callee != "builtin copy" || len(e.Args) != 2 || !sameBuf(e.Args[0], buf) {
+			return nil, -1, false // a second write, or a write that is not a whole-buffer copy
+		}
+		at, src = i, e.Args[1]
+	}
+	if at < 0 {
+		return nil, -1, false
+	}
+	n := buf.Args[0]
+	same := false
+	if lc, _ := n.CallOf(); lc != nil && lc.Aux == "builtin len" && len(lc.Args) == 1 && lc.Args[0].K == src.K {
+		same = true // make([]byte, len(x))
+	}
+	for _, a := range s.Atoms {
+		if a.Op == "==" && a.B != nil && a.A.IsCallTo("builtin len") && a.B.K == n.K {
+			if lc, _ := a.A.CallOf(); lc != nil && len(lc.Args) == 1 && lc.Args[0].K == src.K {
+				same = true // len(x) == n was tested
+			}
+		}
+	}
+	if !same {
+		return nil, -1, false
+	}
+	return src, at, true
+}
+
+// stripWiden removes integer conversions that cannot change the value (the destination type holds every value
+// of the source type: uint8→uint32, uint32→int64, int32→int64, …). Narrowing and sign-changing conversions stay.
+func stripWiden(t *an.Term) *an.Term {
+	for t != nil && t.Op == "numconv" && len(t.Args) == 1 {
+		cv, ok := t.V.(*ssa.Convert)
+		if !ok {
+			break
+		}
+		from, ok1 := cv.X.Type().Underlying().(*types.Basic)
+		to, ok2 := cv.Type().Underlying().(*types.Basic)
+		if !ok1 || !ok2 || from.Info()&types.IsInteger == 0 || to.Info()&types.IsInteger == 0 {
+			break
+		}
+		fb, tb := intBits(from), intBits(to)
+		fu, tu := from.Info()&types.IsUnsigned != 0, to.Info()&types.IsUnsigned != 0
+		if fb == 0 || tb == 0 {
+			break
+		}
+		if !(fu == tu && tb >= fb || fu && !tu && tb > fb) {
+			break
+		}
+		t = t.Args[0]
+	}
+	return t
+}
+
+// intBits: the width of a sized integer type; 0 for the platform-dependent ones (conversions from/to them stay).
+func intBits(b *types.Basic) int {
+	switch b.Kind() {
+	case types.Int8, types.Uint8:
+		return 8
+	case types.Int16, types.Uint16:
+		return 16
+	case types.Int32, types.Uint32:
+		return 32
+	case types.Int64, types.Uint64:
+		return 64
+	}
+	return 0 // int, uint, uintptr: platform dependent — not stripped
 }
